@@ -95,7 +95,19 @@ class FakeZarrGroup:
         return _FakeZarrArray(self, name)
 
 
-MISSING = object()
+class _Missing:
+    def __repr__(self):
+        return "MISSING"
+
+    def __reduce__(self):
+        return (_get_missing, ())
+
+
+def _get_missing():
+    return MISSING
+
+
+MISSING = _Missing()
 
 
 class World:
